@@ -14,7 +14,8 @@ TECHNIQUE = 'exhaustive enumeration of all ordered wind lists of length 0..3 ove
 RULE = ('segment alphabet = {zero speed, 20 mph from 90, 0, 225 deg} x until {20 yd, 60 yd, none} (12 segments); list cells = every multiset of 0..3 '
         'segments (quick: 0..2 plus a slice of 3); each cell fires every distinct ordering of the multiset, its mirror image, its extension by a zero-speed '
         'segment and every truncation to a sorted prefix, to 100 yd with 5-yd rows; sock cells = every sorted list x every increasing query sequence over '
-        '{0,19,20,21,59,60,61,100} yd through the real _WindSock; ode cells = every ordered two-segment list against the RK4 reference; '
+        '{0,19,20,21,59,60,61,100} yd through the real _WindSock; ode cells = every ordered two-segment list against the RK4 reference; edit cells = lists edited in place after the shot was built (until-distances swapped, segment appended, '
+        'list re-assigned, speed zeroed) and fired again vs a shot built from the edited values; '
         'non-trivial = list with a non-zero wind and at least two segments')
 ASSUMPTIONS = ['bitwise comparisons are made between runs in the same process', 'a zero-length segment (duplicate until-distance) may be held for at most one query by the wind cursor (lenient)',
                'ODE clause uses the C01 oracle e <= 4 Delta* + floor']
@@ -213,7 +214,51 @@ def ode_part(cell):
     return res
 
 
-PARTS = {'lists': lists, 'sense': sense, 'sock': sock, 'ode': ode_part}
+def edit(cell):
+    """the order in force is the order of the until-distances AT THE TIME OF THE CALL: editing a wind or the list after the shot was built,
+    then firing, equals firing a shot built from the edited values"""
+    import py_ballisticcalc as pb
+    U = pb.Unit
+    segs, kind = [tuple(s) for s in cell[0]], cell[1]
+    calc = make_calc()
+    dm = pb.DragModel(0.223, pb.TableG7)
+
+    def shot_of(winds):
+        return pb.Shot(pb.Weapon(U.Inch(2), U.Inch(0), U.MOA(5)), pb.Ammo(dm, U.FPS(2750)), winds=winds)
+    winds = [W(s) for s in segs]
+    shot = shot_of(winds)
+    calc.fire(shot, U.Yard(100), U.Yard(5))
+    if kind == 'swap_until':
+        winds[0].until_distance, winds[-1].until_distance = winds[-1].until_distance, winds[0].until_distance
+        edited = [(segs[0][0], segs[-1][1])] + list(segs[1:-1]) + ([(segs[-1][0], segs[0][1])] if len(segs) > 1 else [])
+    elif kind == 'append':
+        winds.append(W((225, 10)))
+        edited = list(segs) + [(225, 10)]
+    elif kind == 'assign':
+        shot.winds = [W((0, 60)), W((90, 20))]
+        edited = [(0, 60), (90, 20)]
+    else:   # speed of the first wind set to zero in place
+        winds[0].velocity = U.MPH(0)
+        edited = [('Z', segs[0][1])] + list(segs[1:])
+    got = [key(r) for r in calc.fire(shot, U.Yard(100), U.Yard(5)).trajectory]
+    if kind == 'zero_speed':
+        # direction of a zero-speed wind is irrelevant: compare with the library-independent expectation via a fresh shot with MPH(0) and the same direction
+        fresh = [W(s) for s in segs]
+        fresh[0].velocity = U.MPH(0)
+        exp = [key(r) for r in calc.fire(shot_of(fresh), U.Yard(100), U.Yard(5)).trajectory]
+        fresh2 = [pb.Wind(U.MPH(0), w.direction_from, w.until_distance) if i == 0 else w for i, w in enumerate([W(s) for s in segs])]
+        exp2 = [key(r) for r in make_calc().fire(shot_of(fresh2), U.Yard(100), U.Yard(5)).trajectory]
+        if exp != exp2:
+            exp = exp2
+    else:
+        exp = [key(r) for r in make_calc().fire(shot_of([W(s) for s in edited]), U.Yard(100), U.Yard(5)).trajectory]
+    out = []
+    if got != exp:
+        out.append({'msg': f'winds {segs} edited after the shot was built ({kind}) and fired again: result differs from a shot built from the edited winds {edited}', 'key': None})
+    return {'v': out, 'n': 3, 'states': 3, 'transitions': 3, 'traces': 1, 'nt': cell}
+
+
+PARTS = {'lists': lists, 'sense': sense, 'sock': sock, 'ode': ode_part, 'edit': edit}
 
 
 def multisets(k):
@@ -229,4 +274,6 @@ def plan(tier):
     od = [[list(a), list(b)] for a in SEGS for b in SEGS if not (a[0] == 'Z' and b[0] == 'Z')]
     if tier == 'quick':
         od = [c for c in od if c[0][1] != c[1][1]]
-    return [('lists', ls), ('sense', se), ('sock', sk), ('ode', od)]
+    ed = [[m, k] for m in multisets(2) + (m3[::9] if tier == 'quick' else m3) for k in ('swap_until', 'append', 'assign', 'zero_speed')
+          if any(x[0] != 'Z' for x in m)]
+    return [('lists', ls), ('sense', se), ('sock', sk), ('ode', od), ('edit', ed)]
